@@ -17,7 +17,7 @@ func main() {
 	r.Assume("chain-consistent histories as in C01", "credits are marked right after the insert that created the record, as wallet.addRelevantTx does")
 	n := r.N(120, 2500)
 	cfg := ledger.Config{MinSteps: 20, MaxSteps: r.N(70, 180), Details: true, Reopen: true}
-	dir, _ := os.MkdirTemp("", "c13")
+	dir := r.TempDir("c13")
 	defer os.RemoveAll(dir)
 	r.Parallel("history", n, evid.Workers(), func(i int, cs int64) {
 		c := cfg
